@@ -159,6 +159,20 @@ def check_model(seq, model):
         if len(res) > 1:
             return False, dict(base, matching=matching, results=sorted(str(r) for r in res)), \
                 "vendor-depends-on-registration-order:%s" % "/".join(sorted(matching))
+        # lookups interleaved with registration: a registry that answered before a more specific vendor was registered
+        # must answer like a fresh registry holding the same vendors
+        from annet.vendors.registry import Registry
+        for perm in itertools.permutations(matching):
+            reg = Registry()
+            have = []
+            for n in [x for x in names if x not in matching][:2] + list(perm):
+                reg.register(type(real.vendors[n]))
+                have.append(n)
+                v1 = reg.match(hw, None)
+                v2 = registry_result(hw, have)
+                if (v1.NAME if v1 else None) != v2:
+                    return False, dict(base, registered=list(have), stale=(v1.NAME if v1 else None), fresh=v2), \
+                        "vendor-depends-on-lookup-history"
         vendor = hw.vendor
         if matching:
             best = max(max(e.count(".") for e in real.vendors[n].match() if _safe_match(hw, e)) for n in matching)
